@@ -10,14 +10,6 @@ import GA.Proofs.TreeDiffSpec
 namespace GA.TreeDiff
 open GA
 
-/-- look a relative path up below a list of siblings -/
-def findIn : List Info → List Str → Option Info
-  | _, [] => none
-  | l, [c] => findChild l c
-  | l, c :: c2 :: r => match findChild l c with
-    | some n => findIn n.children (c2 :: r)
-    | none => none
-
 mutual
 /-- only directories have children (what `collectFileInfoForChanges` builds) -/
 def Info.Shape : Info → Prop
